@@ -22,7 +22,7 @@
 #endif
 
 // Spin the event loop until pred() holds. Returns false on timeout (hang detector).
-inline bool qxvSpin(const std::function<bool()> &pred, int timeoutMs = 3000)
+inline bool qxvSpin(const std::function<bool()> &pred, int timeoutMs = 2000)
 {
     QElapsedTimer t;
     t.start();
@@ -76,6 +76,7 @@ public:
                 sock->deleteLater();
             }
             sock = s;
+            s->setSocketOption(QAbstractSocket::LowDelayOption, 1);  // no Nagle/delayed-ACK stalls (40 ms each)
             ++connections;
             peerClosed = false;
             received.clear();
